@@ -66,6 +66,8 @@ func c13UpdateMenu() []statUpdate {
 		{1, "channel-1", "cctp:1", "uusdc", 600}, {1, "channel-10", "cctp:1", "uusdc", 700}, {1, "channel-1", "hyp:10", "uusdc", 800},
 		{2, "0", "internal", "uusdc", 900}, {2, "1", "hyp:2", "uusdc", 1000}, {3, "1", "cctp:2", "uusdc", 1100}, {3, "10", "internal", "uusdc", 1200},
 		{4, "noble", "cctp:1", "uusdc", 1300}, {1, "channel-0", "cctp:1", "uusdc", 11}, // last one updates an existing entry
+		// denominations on ONE route of which one is a prefix of the other (the denom is the last, unterminated key part)
+		{1, "channel-0", "cctp:1", "uusdcx", 21}, {1, "channel-0", "internal", "uusd", 22},
 	}
 }
 
@@ -209,6 +211,16 @@ func c13CheckLedger(rep *Report, w *World, ctx sdk.Context, ledgerSig string, op
 		keys[dk{a.SP, a.DP, a.SC, a.DC, a.Denom}] = true
 		keys[dk{a.SP, a.DP, a.SC, a.DC, "uother"}] = true
 		keys[dk{a.SP, a.DP, a.SC, a.DC, a.Denom + "x"}] = true
+		if len(a.Denom) > 1 {
+			keys[dk{a.SP, a.DP, a.SC, a.DC, a.Denom[:len(a.Denom)-1]}] = true // a proper prefix of a recorded denom
+			keys[dk{a.SP, a.DP, a.SC, a.DC, a.Denom[:1]}] = true
+		}
+		if len(a.DC) > 1 {
+			keys[dk{a.SP, a.DP, a.SC, a.DC[:len(a.DC)-1], a.Denom}] = true // ... of a recorded destination counterparty
+		}
+		if len(a.SC) > 1 {
+			keys[dk{a.SP, a.DP, a.SC[:len(a.SC)-1], a.DC, a.Denom}] = true // ... of a recorded source counterparty
+		}
 		keys[dk{a.SP, a.DP, a.SC + "0", a.DC, a.Denom}] = true
 		keys[dk{a.SP, a.DP, a.SC, a.DC + "0", a.Denom}] = true
 		if a.SP != 1 && a.DP != 1 {
